@@ -11,7 +11,8 @@ THEOREMS = ['C06_min_runtime_exact', 'C06_min_downtime_exact', 'C06_capacity_whe
             'C06_start_flags', 'C06_heat_share', 'C06_fuel_balance', 'C06_plant_downtime_rows_exact', 'C06_plant_runtime_rows_sound',
             'C06_cap_row_shape', 'C06_capacity_outside_profiles', 'C06_start_profile_bounds', 'C06_shutdown_profile_bounds',
             'C06_start_shutdown_flags_exact', 'C06_ramp_down_applies', 'C06_ramp_down_released', 'C06_ramp_up_applies', 'C06_ramp_up_released',
-            'C06_profile_conversion_within', 'C06_profile_conversion_length']
+            'C06_profile_conversion_within', 'C06_profile_conversion_length',
+            'C06_profile_conversion_exact_at_knots', 'C06_profile_conversion_exact_means']
 CFG = {'freqs': ['h', 'h', '2h'], 'units': ['h'], 'tzs': [None], 'T': (4, 8), 'p_unaligned_end': 0.0, 'p_inflow': 0.0}
 
 
